@@ -11,6 +11,12 @@ use serde_json::{json, Value};
 pub enum RegOp {
     Create { assets: [AssetInfo; 2] },
     Register { denom: String, decimals: u8 },
+    /// the owner migrates a registered pair to the pair code (`alt` = its second stored copy, another code id)
+    Migrate { pair: String, alt: bool },
+    /// the owner changes the factory's default pair code id
+    SetPairCode { alt: bool },
+    /// the factory's chain-level admin (the owner) migrates the factory to its own code
+    MigrateFactory,
 }
 
 fn lp() -> LPTokenInfo {
@@ -36,7 +42,16 @@ fn fresh_sets(fw: &FactoryWorld) -> Vec<[AssetInfo; 2]> {
 
 fn decode(fw: &FactoryWorld, chunk: &[u64]) -> Vec<RegOp> {
     let mut o = Src::new(chunk);
-    match o.weighted(&[3, 4, 1, 1]) {
+    match o.weighted(&[3, 4, 1, 1, 1]) {
+        4 => {
+            // administration that must not disturb any later update
+            let addrs: Vec<String> = fw.model.pairs.values().map(|m| m.addr.clone()).collect();
+            match o.below(4) {
+                0 | 1 if !addrs.is_empty() => vec![RegOp::Migrate { pair: addrs[o.idx(addrs.len())].clone(), alt: o.bool() }],
+                2 => vec![RegOp::SetPairCode { alt: o.bool() }],
+                _ => vec![RegOp::MigrateFactory],
+            }
+        }
         0 => {
             // a burst of creations: registry sizes straddle the listing limits 10 and 30
             let mut sets = fresh_sets(fw);
@@ -149,6 +164,36 @@ fn play(cfg: &WorldCfg, next: &mut dyn FnMut(&FactoryWorld, usize) -> Option<Vec
                         }
                     } else {
                         classes.push("r:creation-refused");
+                    }
+                }
+                RegOp::Migrate { pair, alt } => {
+                    let code = if *alt { fw.w.codes.pair_alt } else { fw.w.codes.pair };
+                    let rec = fw.w.exec(Step { sender: owner.clone(), call: Call::Factory { msg: FactoryExec::MigratePair { contract: pair.clone(), code_id: Some(code) } }, funds: vec![] });
+                    if rec.outcome.is_ok() {
+                        classes.push(if *alt { "adm:pair-migrated-to-other-code-id" } else { "adm:pair-migrated" });
+                    }
+                    if want_desc {
+                        log.push(json!({"migrate": pair, "alt": alt, "ok": rec.outcome.is_ok()}));
+                    }
+                }
+                RegOp::SetPairCode { alt } => {
+                    let code = if *alt { fw.w.codes.pair_alt } else { fw.w.codes.pair };
+                    let rec = fw.w.exec(Step { sender: owner.clone(), call: Call::Factory { msg: FactoryExec::UpdateConfig { owner: None, token_code_id: None, pair_code_id: Some(code) } }, funds: vec![] });
+                    if rec.outcome.is_ok() {
+                        classes.push("adm:default-pair-code-changed");
+                    }
+                    if want_desc {
+                        log.push(json!({"set_pair_code_alt": alt, "ok": rec.outcome.is_ok()}));
+                    }
+                }
+                RegOp::MigrateFactory => {
+                    let (f, c) = (fw.w.factory.to_string(), fw.w.codes.factory);
+                    let rec = fw.w.exec(Step { sender: owner.clone(), call: Call::Migrate { contract: f, code_id: c }, funds: vec![] });
+                    if rec.outcome.is_ok() {
+                        classes.push("adm:factory-migrated");
+                    }
+                    if want_desc {
+                        log.push(json!({"migrate_factory": true, "ok": rec.outcome.is_ok()}));
                     }
                 }
                 RegOp::Register { denom, decimals } => {
